@@ -29,6 +29,9 @@ type MapDoc struct {
 	Ents int `json:"ents"` // 0 = no section; 1 = section without entries; 2..7 = entry lists (see entries)
 	Form int `json:"form"` // 0 /proc/maps, 1 brief, 2 brief with 0x, offset and build id, 3 brief with $attr substitution, 4 brief behind a log prefix
 	Sent int `json:"sent"` // 0 "--- Memory map: ---", 1 "MAPPED_LIBRARIES:"
+	// Gap: a line that is no entry, printed between the entries of the section (documented as
+	// ignored): 0 none, 1 blank line, 2 '#' comment, 3 free text without '=' or address range
+	Gap int `json:"gap,omitempty"`
 }
 
 // Doc is an abstract legacy document; one printer per family renders it.
